@@ -148,3 +148,34 @@ func init() {
 		},
 	}...)
 }
+
+func init() {
+	trSpecs = append(trSpecs, trSpec{
+		Name: "sim_plan_decode_event", Props: []string{"C20"},
+		File: "tools/simulator/config/simulation.go", Func: "DecodeSimulationPlan", Loop: 1,
+		Atoms: []atom{
+			{"ev.err != nil", "ev_err", "bool"}, {"event.Type", "typ", "Z"},
+			{"OCR3ConfigEventType", "t_config", "Z"}, {"GenerateUpkeepEventType", "t_generate", "Z"}, {"LogTriggerEventType", "t_log", "Z"},
+			{"cfg.err != nil", "cfg_err", "bool"}, {"gen.err != nil", "gen_err", "bool"}, {"log.err != nil", "log_err", "bool"},
+			{`generateEvent.Expected == ""`, "no_expected", "bool"},
+		},
+		Binders: map[string]map[string]string{
+			"var event Event": {}, "var configEvent OCR3ConfigEvent": {}, "var generateEvent GenerateUpkeepEvent": {}, "var logEvent LogTriggerEvent": {},
+			"err := json.Unmarshal(rawEvent, &event)":         {"err != nil": "ev.err != nil"},
+			"err := json.Unmarshal(rawEvent, &configEvent)":   {"err != nil": "cfg.err != nil"},
+			"err := json.Unmarshal(rawEvent, &generateEvent)": {"err != nil": "gen.err != nil"},
+			"err := json.Unmarshal(rawEvent, &logEvent)":      {"err != nil": "log.err != nil"},
+		},
+		Actions: map[string]int{
+			"plan.ConfigEvents = append(plan.ConfigEvents, configEvent)": 1, "generateEvent.Expected = AllExpected": 2,
+			"plan.GenerateUpkeeps = append(plan.GenerateUpkeeps, generateEvent)": 3, "plan.LogEvents = append(plan.LogEvents, logEvent)": 4,
+		},
+		Rets: map[string]int{
+			`plan, fmt.Errorf("%w: failed to decode event in simulation plan: %s", ErrEncoding, err.Error())`:                                  1,
+			`plan, fmt.Errorf("%w: failed to decode ocr3config event in simulation plan at index %d: %s", ErrEncoding, idx, err.Error())`:      2,
+			`plan, fmt.Errorf("%w: failed to decode generateUpkeep event in simulation plan at index %d: %s", ErrEncoding, idx, err.Error())`: 3,
+			`plan, fmt.Errorf("%w: failed to decode logTrigger event in simulation plan at index %d: %s", ErrEncoding, idx, err.Error())`:     4,
+			`plan, fmt.Errorf("%w: unrecognized event at index %d", ErrEncoding, idx)`:                                                       5,
+		},
+	})
+}
